@@ -97,3 +97,38 @@ def abstract_cell(w, name, mask=0, type_=-1, nbits=None, nrefs=0):
     c._descriptors = None
     c._data_bytes = None
     return c
+
+
+def abstract_child(w, name, kind='plain', mask=0):
+    """abstract child cell + its specification-side observation (vf.spec.cell.Obs).
+    kind 'plain': any non-pruned cell with level mask `mask` (popcount(mask)+1 symbolic hashes/depths);
+    kind 'pruned': a pruned-branch cell of mask `mask` >= 1 whose data carries symbolic stored hashes/depths."""
+    from vf.spec import cell as SC, enc as E
+    from pytoniq_core.boc.cell import Cell
+    from pytoniq_core.boc.exotic import LevelMask
+    from pytoniq_core.boc.tvm_bitarray import TvmBitarray
+    if kind == 'plain':
+        c = abstract_cell(w, name, mask=mask)
+        obs = SC.observe(w, SC.ORDINARY, mask, c._hashes, c._depths, None)
+        return c, obs
+    k = SC.popcount(mask)
+    data = E.lit('00000001') + E.uint(mask, 8)
+    stored_h = [w.bytes(f'{name}.stored_hash{i}', 32) for i in range(k)]
+    stored_d = [w.int(f'{name}.stored_depth{i}', 0, 65535) for i in range(k)]
+    for h in stored_h:
+        data = data + w.bytes_seq(h)
+    for d in stored_d:
+        data = data + E.uint(d, 16)
+    c = Cell.__new__(Cell)
+    c.bits = w.mk_bitarray(TvmBitarray, data, 1023)
+    c.refs = []
+    c.type_ = 1
+    c.is_exotic = True
+    c.level_mask = LevelMask(mask)
+    c._hashes = [w.bytes(f'{name}.hash', 32)]
+    c._depths = [0]
+    c._hash = c._hashes[-1]
+    c._descriptors = None
+    c._data_bytes = SC._as_bytes(w, data)
+    obs = SC.observe(w, SC.PRUNED, mask, c._hashes, c._depths, data)
+    return c, obs
